@@ -21,6 +21,11 @@ struct Fam8 {
     using u = u8;
     static constexpr const char* name = "8";
 };
+struct Fam16 {
+    using s = i16;
+    using u = u16;
+    static constexpr const char* name = "16";
+};
 struct Fam32 {
     using s = int;
     using u = unsigned;
@@ -292,6 +297,10 @@ static void group()
 #if VF_PART >= 1 && VF_PART <= 7
     values_row<VF_PART, Fam8>(std::make_integer_sequence<int, 7>{});
     values_row<VF_PART, Fam32>(std::make_integer_sequence<int, 7>{});
+#elif VF_PART >= 3000
+    // narrow Narrowest types: results land on 8, 15, 16, 17, 31, 32 digits from below the storage ladder's rungs
+    corners_row<VF_PART - 3000, Fam8, 1, 7, 8, 9, 15, 16>();
+    corners_row<VF_PART - 3000, Fam16, 1, 7, 8, 9, 15, 16>();
 #elif VF_PART >= 2000
     constexpr int D = VF_PART - 2000;
     prog_builtin<D, false, Fam32, i8>();
